@@ -251,6 +251,19 @@ func canonJSON(s string) string {
 }
 
 // View is the readable state of a replica through the public API only.
+// typed returns the replica's datatype as the application holds it.
+func (r *Replica) typed() orda.Datatype {
+	switch {
+	case r.cnt != nil:
+		return r.cnt
+	case r.mp != nil:
+		return r.mp
+	case r.li != nil:
+		return r.li
+	}
+	return r.doc
+}
+
 func (r *Replica) View() string {
 	verifrt.SetMode(verifrt.Sorted)
 	defer verifrt.SetMode(r.mode)
